@@ -14,6 +14,7 @@ ID = "C19"
 LEVEL = "fault_enumeration"
 QUICK_SHARDS = 4
 MIN_NONTRIVIAL = 50
+FUZZ_RUNS = 240000     # thorough tier: atheris executions (all children)
 RULE = (
     "A state reached by a valid editing history, then ill-formed requests "
     "from a catalogue, chained (a rejected request must leave the state "
@@ -235,6 +236,8 @@ def run(ctx):
     for k, (cls, op) in enumerate(jobs):
         if k % ctx.nshards == ctx.shard:
             mine.setdefault(cls, []).append(op)
+    if getattr(ctx, "collect_only", False):
+        mine = {}                      # atheris stage: generators only
     for cls, roots in mine.items():
         s, nf, nq = bfs(ctx, cls, depth, max_states, roots,
                         with_empty=ctx.shard == 0)
@@ -253,5 +256,5 @@ def run(ctx):
         labs += [f"raised:{k}" for k in set(kinds)]
         ctx.note(case, nontrivial(case), labs)
 
-    ctx.hyp("c19", S.tapes(2500).map(gen), check, ctx.scale(3000, 60000),
+    ctx.hyp("c19", S.mapped(2500, gen), check, ctx.scale(3000, 60000),
             shrinker=shrink)
